@@ -1,47 +1,12 @@
-import UtlsVerif.SessionCtlInv
+import UtlsVerif.SessionCtlBuild
+import UtlsVerif.SessionCtlSetters
+import UtlsVerif.SessionCtlGolang
 /-!
-# SessionCtlStep — invariants of the `SessionCtl` machine, part 5
+# SessionCtlStep — every API call preserves `inv` and never ends in an internal assertion
 
-`inv_step`: every API call preserves the boundary invariant `inv` and never ends in an internal
-assertion panic — for every configuration, every state satisfying `inv`, every call and every
-oracle answer.
+`inv_step`, its lifting to call sequences (`inv_final`, `no_assert_of_inv`) and `locked_step`.
 -/
 namespace SessionCtl
-
-/-- the part of `handshake` after the build. -/
-def hsTail (cfg : Cfg) (lr : LoadRes) (s : St) : R :=
-  if s.locked then okR { s with hsDone := true }
-  else
-    let (r, res) := loadSession cfg lr s
-    r.andThen fun s =>
-    let usable := !(cfg.disabled || !s.hasCache)
-    let s := match res with
-      | .s12 => { s with hsSession := some .cache, helloTicket := some .cache }
-      | .s13 => { s with hsSession := some .cache, hsEarly := some .cache, helloPsk := some .cache }
-      | .none => s
-    let ts := s.helloTS || usable
-    let t : Slot := if !ts then .absent else if res == .s12 then .tok .cache else .empty
-    let p : Slot := if res == .s13 then .tok .cache else .absent
-    okR { s with raw := some (t, p), helloTS := ts, hsDone := true }
-
-theorem handshake_eq (cfg : Cfg) (lr : LoadRes) (s : St) :
-    handshake cfg lr s = (buildHandshakeState cfg true lr s).andThen (hsTail cfg lr) := rfl
-
-set_option maxHeartbeats 1000000 in
-theorem hsTail_inv (cfg : Cfg) (lr : LoadRes) (s : St) (h : inv cfg s = true)
-    (hp : cfg.golang = false → s.locked = true) (hgo : cfg.golang = true → s.tracker = .never) :
-    inv cfg (hsTail cfg lr s).1 = true ∧ (hsTail cfg lr s).2 = none ∧ (hsTail cfg lr s).1.hsDone = true := by
-  obtain ⟨hasCache, state, locked, tracker, calling, status, tRef, pRef, specT, userT, specP, userP, lT, lP, hsS, hsE, hT, hP, raw, ts, shares, filled, held, done⟩ := s
-  obtain ⟨golang, custom, cT, cP, skip, disabled⟩ := cfg
-  cases golang with
-  | false =>
-    have hl : locked = true := by simpa using hp
-    subst hl
-    simp_all [inv, hsTail, okR, keysOk, usable, freshObjs, pskSynced, slots, St.pObj]
-  | true =>
-    cases locked <;> cases state <;> cases lr <;> cases status <;> cases disabled <;> cases hasCache <;>
-      simp_all [inv, hsTail, loadSession, okR, failR, R.andThen, keysOk, usable, freshObjs, pskSynced, slots, St.pObj]
-
 
 /-- every API call preserves the boundary invariant and never ends in an internal assertion. -/
 theorem inv_step (cfg : Cfg) (s : St) (op : Op) (h : inv cfg s = true) :
@@ -89,5 +54,66 @@ theorem inv_step (cfg : Cfg) (s : St) (op : Op) (h : inv cfg s = true) :
         have ht := hsTail_inv cfg lr s' h1 (by simp [hg]) (fun _ => h5)
         simp only [R.andThen]
         exact ⟨ht.1, by simp [ht.2.1, Outcome.isAssertion]⟩
+
+theorem inv_final (cfg : Cfg) (s : St) (h : inv cfg s = true) (ops : List Op) : inv cfg (final cfg s ops) = true := by
+  induction ops generalizing s with
+  | nil => exact h
+  | cons op ops ih => rw [final_cons]; exact ih _ (inv_step cfg s op h).1
+
+theorem no_assert_of_inv (cfg : Cfg) (s : St) (h : inv cfg s = true) (ops : List Op) :
+    ∀ o ∈ outcomes cfg s ops, o.isAssertion = false := by
+  induction ops generalizing s with
+  | nil => simp [outcomes_nil]
+  | cons op ops ih =>
+    rw [outcomes_cons]
+    intro o ho
+    rcases List.mem_cons.mp ho with rfl | ho
+    · exact (inv_step cfg s op h).2
+    · exact ih _ (inv_step cfg s op h).1 o ho
+
+/-- once locked, no call changes a session field. -/
+theorem locked_step (cfg : Cfg) (s : St) (op : Op) (h : inv cfg s = true) (hl : s.locked = true) :
+    sessionView (step cfg s op).1 = sessionView s := by
+  have hg : cfg.golang = false := by
+    cases hg : cfg.golang with
+    | false => rfl
+    | true => simp [inv, hg, hl] at h
+  cases hd : s.hsDone with
+  | true => simp [step, stepR, hd, okR]
+  | false =>
+    have built : ∀ load lr, sessionView (buildHandshakeState cfg load lr s).1 = sessionView s
+        ∧ (buildHandshakeState cfg load lr s).2 = none ∧ (buildHandshakeState cfg load lr s).1.locked = true := by
+      intro load lr
+      have hb := build_parrot cfg load lr s hg h hd
+      have hst : s.status = .byUtls := by
+        have := h; simp only [inv, hg, Bool.and_eq_true, beq_iff_eq] at this; simp_all
+      generalize buildHandshakeState cfg load lr s = r at hb ⊢
+      obtain ⟨s', o⟩ := r
+      cases o with
+      | some o => simp [BuiltFail, hst] at hb
+      | none =>
+        rcases hb with ⟨_, hs⟩ | ⟨hnb, _⟩
+        · simp only [lockedSame, Bool.and_eq_true, beq_iff_eq] at hs
+          have hv : sessionView s' = sessionView s := hs.1.1.1.1.1.1.1.1.1.1.1.2
+          refine ⟨hv, rfl, ?_⟩
+          have hlk : s'.locked = s.locked := by
+            simp only [sessionView, Prod.mk.injEq] at hv; exact hv.2.1
+          simp [hlk, hl]
+        · simp [hst] at hnb
+    cases op with
+    | setCache => simpa [step] using setters_locked cfg s .setCache (Or.inr rfl) hl
+    | setTicket a => simpa [step] using setters_locked cfg s (.setTicket a) (Or.inl rfl) hl
+    | setPsk a => simpa [step] using setters_locked cfg s (.setPsk a) (Or.inl rfl) hl
+    | buildNoSession => simpa [step, stepR, hd] using (built false .none).1
+    | build lr => simpa [step, stepR, hd] using (built true lr).1
+    | handshake lr =>
+      obtain ⟨hv, ho, hlk⟩ := built true lr
+      simp only [step, stepR, hd, handshake_eq]
+      generalize buildHandshakeState cfg true lr s = r at hv ho hlk ⊢
+      obtain ⟨s', o⟩ := r
+      simp only at ho hlk hv; subst ho
+      simp only [R.andThen, hsTail, hlk, okR, if_true]
+      simp only [sessionView, Prod.mk.injEq] at hv ⊢
+      simp_all
 
 end SessionCtl
